@@ -168,8 +168,13 @@ Section WithValidators.
   Definition gw_to_json (g : option obj) : option str :=
     match g with None => None | Some l => Some (to_json cls_Labels l) end.
 
-  Definition gw_from_json (t : option str) : res (option obj) :=
-    match from_json cls_Labels t with Ok lab => gw_make lab | Err e => Err e end.
+  (* Gateway.from_json: None = ABSENT (no labels recorded, 450b7bb); Some g = a Gateway whose .lab is g *)
+  Definition gw_from_json (t : option str) : res (option (option obj)) :=
+    match from_json cls_Labels t with
+    | Ok None => Ok None
+    | Ok (Some l) => match gw_make (Some l) with Ok g => Ok (Some g) | Err e => Err e end
+    | Err e => Err e
+    end.
 
   (* ---------------- Tags ---------------- *)
   Definition e_tag : str := S"TagException".
